@@ -4,7 +4,7 @@ use crate::Result;
 use crate::compression::error_helpers::{compression_error, decompression_error};
 use implode::exploder::Exploder;
 use implode::symbol::DEFAULT_CODE_TABLE;
-use pklib::{CompressionMode, DictionarySize, implode_bytes};
+use pklib::{CompressionMode, DictionarySize, explode_bytes, implode_bytes};
 
 /// Compress data using PKWare DCL algorithm
 pub(crate) fn compress(data: &[u8]) -> Result<Vec<u8>> {
@@ -15,8 +15,18 @@ pub(crate) fn compress(data: &[u8]) -> Result<Vec<u8>> {
 
     // Use ASCII mode with 2KB dictionary as default for MPQ archives
     // This provides good compression ratio for most data types
-    implode_bytes(data, CompressionMode::ASCII, DictionarySize::Size2K)
-        .map_err(|e| compression_error("PKWare", e))
+    let compressed = implode_bytes(data, CompressionMode::ASCII, DictionarySize::Size2K)
+        .map_err(|e| compression_error("PKWare", e))?;
+
+    // pklib's imploder silently drops input beyond its first work buffers, so make sure the
+    // stream really decodes to the input before handing it out.
+    match explode_bytes(&compressed) {
+        Ok(decoded) if decoded == data => Ok(compressed),
+        _ => Err(compression_error(
+            "PKWare",
+            "compressed stream does not decode back to the input",
+        )),
+    }
 }
 
 /// Decompress PKWare compressed data using implode crate (for MPQ archives)
@@ -35,6 +45,14 @@ pub(crate) fn decompress(data: &[u8], expected_size: usize) -> Result<Vec<u8>> {
 
     // Use the implode crate for PKWare decompression in MPQ archives
     // Based on the working implementation in msierks/mpq-rust
+    // The implode crate's exploder does not implement ASCII literal mode (header byte 1),
+    // which is what `compress` above emits; pklib's decoder handles it.
+    if data[0] == 1 {
+        let mut output = explode_bytes(data).map_err(|e| decompression_error("PKWare", e))?;
+        output.truncate(expected_size);
+        return Ok(output);
+    }
+
     let mut exploder = Exploder::new(&DEFAULT_CODE_TABLE);
     let mut output = Vec::with_capacity(expected_size);
     let mut input_pos = 0;
